@@ -139,7 +139,7 @@ def Text_TraefikOidc_startMetadataRefresh : Prop := text_TraefikOidc_startMetada
 def expectedText_discoverProviderMetadata : List String := ["wellKnownURL := strings.TrimSuffix(providerURL, \"/\") + \"/.well-known/openid-configuration\"", "maxRetries := 5", "baseDelay := 1 * time.Second", "maxDelay := 30 * time.Second", "totalTimeout := 5 * time.Minute", "start := time.Now()", "var lastErr error", "for attempt := 0; attempt < maxRetries; attempt++ { if time.Since(start) > totalTimeout { l.Errorf(\"Timeout exceeded while fetching provider metadata\") return nil, fmt.Errorf(\"timeout exceeded while fetching provider metadata: %w\", lastErr) } metadata, err := fetchMetadata(wellKnownURL, httpClient) if err == nil { l.Debug(\"Provider metadata fetched successfully\") return metadata, nil } lastErr = err delay := time.Duration(math.Pow(2, float64(attempt))) * baseDelay if delay > maxDelay { delay = maxDelay } l.Debugf(\"Failed to fetch provider metadata (attempt %d/%d), retrying in %s. Error: %v\", attempt+1, maxRetries, delay, err) time.Sleep(delay) }", "l.Errorf(\"Max retries exceeded while fetching provider metadata\")", "return nil, fmt.Errorf(\"max retries exceeded while fetching provider metadata: %w\", lastErr)"]
 def Text_discoverProviderMetadata : Prop := text_discoverProviderMetadata = expectedText_discoverProviderMetadata
 
-def expectedText_fetchMetadata : List String := ["resp, err := httpClient.Get(wellKnownURL)", "if err != nil { return nil, fmt.Errorf(\"failed to fetch provider metadata: %w\", err) }", "if resp == nil { return nil, fmt.Errorf(\"received nil response from provider at %s\", wellKnownURL) }", "defer resp.Body.Close()", "if resp.StatusCode != http.StatusOK { bodyBytes, _ := io.ReadAll(resp.Body) return nil, fmt.Errorf(\"failed to fetch provider metadata from %s: status code %d, body: %s\", wellKnownURL, resp.StatusCode, string(bodyBytes)) }", "var metadata ProviderMetadata", "if err := json.NewDecoder(resp.Body).Decode(&metadata); err != nil { bodyBytes, readErr := io.ReadAll(io.MultiReader(json.NewDecoder(resp.Body).Buffered(), resp.Body)) if readErr != nil { bodyBytes = []byte(fmt.Sprintf(\"(failed to read response body: %v)\", readErr)) } return nil, fmt.Errorf(\"failed to decode provider metadata from %s: %w. Response body: %s\", wellKnownURL, err, string(bodyBytes)) }", "return &metadata, nil"]
+def expectedText_fetchMetadata : List String := ["resp, err := httpClient.Get(wellKnownURL)", "if err != nil { return nil, fmt.Errorf(\"failed to fetch provider metadata: %w\", err) }", "if resp == nil { return nil, fmt.Errorf(\"received nil response from provider at %s\", wellKnownURL) }", "defer resp.Body.Close()", "if resp.StatusCode != http.StatusOK { bodyBytes, _ := io.ReadAll(resp.Body) return nil, fmt.Errorf(\"failed to fetch provider metadata from %s: status code %d, body: %s\", wellKnownURL, resp.StatusCode, string(bodyBytes)) }", "var metadata ProviderMetadata", "if err := json.NewDecoder(resp.Body).Decode(&metadata); err != nil { bodyBytes, readErr := io.ReadAll(io.MultiReader(json.NewDecoder(resp.Body).Buffered(), resp.Body)) if readErr != nil { bodyBytes = []byte(fmt.Sprintf(\"(failed to read response body: %v)\", readErr)) } return nil, fmt.Errorf(\"failed to decode provider metadata from %s: %w. Response body: %s\", wellKnownURL, err, string(bodyBytes)) }", "if metadata.Issuer == \"\" || metadata.AuthURL == \"\" || metadata.TokenURL == \"\" || metadata.JWKSURL == \"\" { return nil, fmt.Errorf(\"incomplete provider metadata from %s: issuer, authorization_endpoint, token_endpoint and jwks_uri are required\", wellKnownURL) }", "return &metadata, nil"]
 def Text_fetchMetadata : Prop := text_fetchMetadata = expectedText_fetchMetadata
 
 def expectedText_MetadataCache_GetMetadata : List String := ["c.mutex.RLock()", "if c.isCacheValid() { defer c.mutex.RUnlock() return c.metadata, nil }", "c.mutex.RUnlock()", "c.mutex.Lock()", "defer c.mutex.Unlock()", "if c.isCacheValid() { return c.metadata, nil }", "metadata, err := discoverProviderMetadata(providerURL, httpClient, logger)", "if err != nil { if c.metadata != nil { c.expiresAt = time.Now().Add(5 * time.Minute) return c.metadata, nil } return nil, fmt.Errorf(\"failed to fetch provider metadata: %w\", err) }", "c.metadata = metadata", "c.expiresAt = time.Now().Add(1 * time.Hour)", "return metadata, nil"]
